@@ -100,3 +100,47 @@ def loops_preorder(fn):
                 walk(getattr(s, 'finalbody', []))
     walk(fn.body)
     return out
+
+
+def hidden_state(qualname):
+    """names of module-level MUTABLE containers (dict / list / set displays or constructor calls) that the body of the function -- for a class:
+    of any of its methods -- refers to, names it declares global / nonlocal, and caching decorators on it.  A function that is specified as a
+    function of its arguments (per-call contract) must not use any: such state survives the call and no contract sees it.
+    Decorator arguments (evaluated once, at definition time) are not part of the body."""
+    import ast
+    fn, _, _ = func(qualname)
+    mod = qualname.split('.')[0]
+    tree = module_ast(mod)[1]
+    mutable = set()
+    for node in tree.body:
+        tgts, val = [], None
+        if isinstance(node, ast.Assign):
+            tgts, val = node.targets, node.value
+        elif isinstance(node, ast.AnnAssign) and node.value is not None:
+            tgts, val = [node.target], node.value
+        if val is None:
+            continue
+        is_mut = isinstance(val, (ast.Dict, ast.List, ast.Set, ast.DictComp, ast.ListComp, ast.SetComp)) or (
+            isinstance(val, ast.Call) and ast.unparse(val.func).split('.')[-1] in ('dict', 'list', 'set', 'OrderedDict', 'defaultdict', 'deque', 'WeakValueDictionary'))
+        if is_mut:
+            for t_ in tgts:
+                if isinstance(t_, ast.Name) and t_.id != '__all__':
+                    mutable.add(t_.id)
+    fns = [fn] if isinstance(fn, (ast.FunctionDef, ast.AsyncFunctionDef)) else [b for b in ast.walk(fn) if isinstance(b, (ast.FunctionDef, ast.AsyncFunctionDef))]
+    used = set()
+    for f in fns:
+        local = {a.arg for a in f.args.args + f.args.kwonlyargs + f.args.posonlyargs}
+        for stmt in f.body:
+            for n in ast.walk(stmt):
+                if isinstance(n, ast.Name) and n.id in mutable and n.id not in local:
+                    used.add(n.id)
+                if isinstance(n, (ast.Global, ast.Nonlocal)) and f is fn:
+                    used.update(n.names)
+                if isinstance(n, ast.Global) and f is not fn:
+                    used.update(n.names)
+        for d in f.decorator_list:
+            txt = ast.unparse(d)
+            if 'cache' in txt.lower() or 'memoize' in txt.lower():
+                used.add('@' + txt)
+    return used
+
